@@ -204,13 +204,85 @@ func (x *g) path() ([]jl.Frag, []string) {
 	return p, cls
 }
 
+// matrix: a fixed menu of target paths crossed pairwise (both orders) over documents built for them: the interplay of
+// several targets (which target decides at a container's end, a filter target in front of a plain one, two descents in
+// one target, two unions in one target) is rare in random generation and is enumerated here instead.
+func matrix(out *bufio.Writer, full bool) {
+	I, S, A, O := jl.Int, jl.Str, jl.Arr, jl.Obj
+	docs := []jl.Node{
+		O("a", I(5), "b", A(O("x", I(1)), O("x", I(0)), O("x", I(2))), "c", O("a", O("b", I(7), "p", O("q", O("b", I(8)))), "b", I(9))),
+		A(A(O("x", I(0))), A(O("x", I(1)), O("x", I(3))), O("a", A(I(1), I(2), I(3), I(4))), I(6)),
+		O("x", O("a", O("b", I(1), "y", O("b", I(2)), "p", O("q", O("b", I(3))))), "a", O("b", I(4))),
+		A(O("a", S("s1"), "b", S("s2")), A(I(10), I(11), I(12), I(13)), A(A(I(20), I(21)), A(I(22), I(23)))),
+	}
+	gt := func(k string, c int64) jl.Frag { return jl.FFilter("gtk", k, I(c)) }
+	menu := [][]jl.Frag{
+		{jl.FRoot(), jl.FChild("a")}, {jl.FRoot(), jl.FChild("b")}, {jl.FRoot(), jl.FChild("c"), jl.FChild("a")}, {jl.FRoot(), jl.FWild()},
+		{jl.FRoot(), jl.FWild(), jl.FWild()}, {jl.FRoot(), jl.FNth(0)}, {jl.FRoot(), jl.FNth(1)}, {jl.FRoot(), jl.FNth(1), jl.FNth(0)}, {jl.FRoot(), jl.FNth(3)},
+		{jl.FRoot(), jl.FDesc(), jl.FChild("b")}, {jl.FRoot(), jl.FDesc(), jl.FChild("a"), jl.FDesc(), jl.FChild("b")}, {jl.FRoot(), jl.FDesc(), jl.FChild("x")},
+		{jl.FRoot(), jl.FChild("x"), jl.FDesc(), jl.FChild("b")}, {jl.FRoot(), jl.FDesc(), jl.FNth(0)}, {jl.FRoot(), jl.FDesc(), jl.FNth(1), jl.FDesc(), jl.FNth(0)},
+		{jl.FRoot(), jl.FUnion("a", "b")}, {jl.FRoot(), jl.FUnion(0, 2), jl.FUnion(1, 3)}, {jl.FRoot(), jl.FUnion(1, 2), jl.FUnion(0, 1), jl.FUnion(0, 1)}, {jl.FRoot(), jl.FDesc(), jl.FUnion("a", "b"), jl.FUnion(0, 1)},
+		{jl.FRoot(), jl.FWild(), gt("x", 0)}, {jl.FRoot(), jl.FChild("b"), gt("x", 0)}, {jl.FRoot(), jl.FWild(), jl.FFilter("exk", "x", jl.Null())}, {jl.FRoot(), gt("x", 0)},
+		{jl.FRoot(), jl.FWild(), jl.FFilter("gts", "", I(1))}, {jl.FRoot(), jl.FDesc(), gt("x", 0)}, {jl.FRoot(), jl.FChild("c"), jl.FWild()}, {jl.FRoot(), jl.FChild("c"), jl.FChild("a"), jl.FChild("b")},
+		{jl.FRoot(), jl.FNth(2), jl.FChild("a"), jl.FSlice(1, 3, 1)}, {jl.FRoot(), jl.FNth(-1)}, {jl.FRoot(), jl.FNth(1), jl.FWild()}, {jl.FRoot(), jl.FNth(2), jl.FWild(), jl.FNth(1)},
+	}
+	cls := func(p []jl.Frag) []string {
+		var c []string
+		for _, f := range p[1:] {
+			k, _ := f["f"].(string)
+			switch k {
+			case "nth":
+				if jl.ToInt(f["i"]) < 0 {
+					k = "nth-neg"
+				}
+			case "slice":
+				if jl.ToInt(f["s"]) < 0 || jl.ToInt(f["e"]) < 0 {
+					k = "slice-neg"
+				}
+			}
+			c = append(c, k)
+		}
+		return c
+	}
+	emit := func(doc jl.Node, ts ...[]jl.Frag) {
+		set := map[string]bool{}
+		for _, t := range ts {
+			for _, c := range cls(t) {
+				set[c] = true
+			}
+		}
+		var cl []string
+		for c := range set {
+			cl = append(cl, c)
+		}
+		sort.Strings(cl)
+		class := strings.Join(cl, "+")
+		if len(ts) > 1 {
+			class += "/multi-target"
+		}
+		out.Write(plib.MarshalLine(mcase{Doc: doc, Targets: ts, Class: class, Chunks: []string{"whole", "1", "half"}}))
+	}
+	for di, d := range docs {
+		for i := range menu {
+			emit(d, menu[i])
+			for j := range menu {
+				if i != j && (full || (i+j+di)%2 == 0) {
+					emit(d, menu[i], menu[j])
+				}
+			}
+		}
+	}
+}
+
 func gen(args []string) {
 	fs := flag.NewFlagSet("gen", flag.ExitOnError)
 	n := fs.Int("n", 2000, "cases")
+	full := fs.Bool("full", false, "whole target-pair matrix")
 	fs.Parse(args)
 	x := &g{r: rand.New(rand.NewSource(seed()))}
 	out := bufio.NewWriterSize(os.Stdout, 1<<20)
 	defer out.Flush()
+	matrix(out, *full)
 	for i := 0; i < *n; i++ {
 		x.ctr = 0
 		doc := x.tree(1 + x.r.Intn(4))
